@@ -4,7 +4,7 @@
    inputs.  What is false of the faithful model is in Findings/C11.v. *)
 From Coq Require Import QArith.
 From TT Require Import Base.Prelude Model.VttTokenizer Model.VttReader Spec.VttSpec.
-From TT Require Import Proofs.C11.Tokenizer Proofs.C11.Time Proofs.C11.Region Proofs.C11.Tree.
+From TT Require Import Proofs.C11.Tokenizer Proofs.C11.Time Proofs.C11.Region Proofs.C11.Tree Proofs.C11.Lines.
 
 (* tokenizing the WebVTT syntax of a token list returns the list: every list of string / start-tag (with classes
    and annotation) / end-tag / timestamp tokens in normal form, of any length.
@@ -44,7 +44,25 @@ Theorem C11_tree_partial : forall pb att ns, wf_nodes ns ->
   parse_cue_text pb att (print_cue_text (map node_of ns)) = inl (spans_of true ns).
 Proof. exact tree_roundtrip. Qed.
 
+(* the file-level line machine, by induction on the list of cues: a file made of the header line and cue blocks
+   (optional identifier line, timing line with hours optional and any setting words, one or more non-blank
+   payload lines) separated by one blank line is read as exactly one paragraph per cue, in order, with exactly
+   the printed begin and end (rationals), the region its settings select (get_or_make_region, shared as in
+   C11_region_sharing) and the tree parsed from its payload; read_cues (Proofs/C11/Lines.v) is that meaning.
+   For payloads without leading/trailing CR and without backslashes the parsed text is the lines joined by LF.
+   NOTE/STYLE/REGION blocks are not part of this statement (they are exercised by the correspondence run). *)
+Theorem C11_cues : forall hdr cs, no_lf hdr = true -> Forall rcue_ok cs ->
+  to_model (file_text hdr cs) = read_cues cs [] [].
+Proof. exact file_cues. Qed.
+Theorem C11_cue_text_lines : forall c, rc_lines c <> [] -> plain_payload (rc_lines c) = true ->
+  cue_text c = join_lf (rc_lines c).
+Proof. exact cue_text_plain. Qed.
+
 (* non-vacuity *)
+Example C11_example_file :
+  Forall rcue_ok [mkRcue (Some [105;100]) (mkTs None 0 1 0) (mkTs (Some [0;0]) 0 2 500) [[108;105;110;101;58;48]] [[97];[98;32;99]];
+                  mkRcue None (mkTs None 0 3 0) (mkTs None 0 4 0) [] [[60;98;62;120]]].
+Proof. exact file_example. Qed.
 Example C11_example_tokens :
   nf_list [TString [97;38;60]; TStart [99] (Some [[114;101;100];[98;103;95;98;108;117;101]]) None; TString [120];
            TEnd [99]; TStart [118] (Some []) (Some [84;111;109;32;74]); TTs [48;48;58;48;49;46;48;48;48]; TEnd []].
@@ -62,3 +80,5 @@ Print Assumptions C11_time_value.
 Print Assumptions C11_region_inside_partial.
 Print Assumptions C11_region_sharing.
 Print Assumptions C11_tree_partial.
+Print Assumptions C11_cues.
+Print Assumptions C11_cue_text_lines.
